@@ -12,7 +12,8 @@ EXPLANATION = (
     "through to_positive_int; (R2) interval dataflow over those two accessors: the value converted "
     "to usize on the success path is >= 0 resp. >= 1 and the other path builds IllegalFunctionCall; and "
     "one structural part of `counts clamped to the length`: (R3) the end of every substring range "
-    "handed to str::get in the string built-ins is proved <= LEN(s).")
+    "handed to str::get in the string built-ins is proved <= LEN(s); and one of `VAL(STR$(k)) = k`: (R4) "
+    "every numeric result VAL builds is negated exactly on the negative side of its sign test.")
 NOT_DECIDED = [
     "LEFT$/RIGHT$/MID$ substring equations, INSTR minimality, LEN additivity, UCASE$/LCASE$/LTRIM$/RTRIM$ "
     "laws, SPACE$ = STRING$, VAL(STR$(k)) = k (value-level string arithmetic)",
@@ -151,8 +152,126 @@ def r3_substring_ranges(ctx, rule="C17.R3"):
     ctx.require(rule, 1)
 
 
+NUMERIC_VARIANTS = ("VInteger", "VLong", "VSingle", "VDouble")
+
+
+def r4_val_sign(ctx, rule="C17.R4"):
+    """`VAL(STR$(k)) = k for every whole number k`, the part that is visible in the shape of the
+    code: VAL parses the magnitude and remembers the sign in a flag; every numeric result it builds
+    must be negated exactly where the flag says `negative`.  Each construction of a numeric Variant
+    in `val` is placed under the sign test that dominates it: on the negative side the payload must
+    come from a negation (or the value goes through Variant::negate before it is returned), on the
+    positive side it must not.  A value built before the sign is tested must reach a sign test whose
+    negative side negates on every path and whose positive side never does."""
+    prog = ctx.prog
+    fs = [f for f in prog.fns.values() if f.crate == "rusty_basic" and f.path.endswith("built_ins::val::val")]
+    if len(fs) != 1:
+        raise CheckError("anchor built_ins::val::val: %d matches" % len(fs))
+    f = fs[0]
+    body = f.body
+    pv = mir.Prov(body)
+    # the sign flag: a bool local assigned the constants true and false
+    flags = []
+    for l, ds in body.defs().items():
+        vals = set()
+        for b, i, st in ds:
+            if i != "T" and st["r"]["k"] == "use" and (st["r"]["o"].get("k") or {}).get("ty") == "bool":
+                vals.add(st["r"]["o"]["k"].get("int"))
+        if vals == {0, 1}:
+            flags.append(l)
+    if len(flags) != 1:
+        raise CheckError("%s: expected one sign flag in val(), found %d" % (rule, len(flags)))
+    flag = flags[0]
+
+    def is_flag(op, blk):
+        p = mir.op_place(op)
+        if p is None or p[1]:
+            return False
+        l = p[0]
+        for st in reversed(blk["s"]):
+            if st["k"] == "assign" and st["p"][0] == l and not st["p"][1] and st["r"]["k"] == "use":
+                q = mir.op_place(st["r"]["o"])
+                if q is not None and not q[1]:
+                    l = q[0]
+        return l == flag
+    sign_sw = {}
+    for b, blk in enumerate(body.blocks):
+        t = blk["t"]
+        if t["k"] == "switch" and is_flag(t["o"], blk):
+            neg = [tg for v, tg in t["ts"] if v == 0]
+            pos = [tg for v, tg in t["ts"] if v != 0] or [t["else"]]
+            if not neg:
+                neg, pos = [t["else"]], pos
+            sign_sw[b] = (neg[0], pos[0])
+    if not sign_sw:
+        raise CheckError("%s: val() never tests its sign flag" % rule)
+    negate_blocks = {b for b, t in body.calls() if (t.get("cpath") or "").split("::")[-1] == "negate"}
+    exits = set(body.exits())
+
+    def polarity(b):
+        best = None
+        for sb, (neg, pos) in sign_sw.items():
+            if not body.dominates(sb, b):
+                continue
+            side = None
+            if neg != pos and body.dominates(neg, b) and b in body.reachable(neg):
+                side = "negative"
+            elif neg != pos and body.dominates(pos, b) and b in body.reachable(pos):
+                side = "positive"
+            if side and (best is None or body.dominates(best[0], sb)):
+                best = (sb, side)
+        return best[1] if best else None
+    n = 0
+    for b, blk in enumerate(body.blocks):
+        if body.is_cleanup(b):
+            continue
+        for st in blk["s"]:
+            r = st.get("r", {})
+            if st["k"] != "assign" or r.get("k") != "agg" or not (r.get("adt") or "").endswith("::Variant") \
+                    or r.get("variant") not in NUMERIC_VARIANTS or not r.get("ops"):
+                continue
+            if "k" in r["ops"][0]:
+                continue    # a constant (VAL of text without digits is 0)
+            n += 1
+            o = pv.of_operand(r["ops"][0])
+            negated = mir.origin_mentions(o, lambda z: z[0] == "un" and z[1] == "Neg")
+            side = polarity(b)
+            key = "%s:%s@%s" % (rule, r["variant"], side or "before-sign-test")
+            k = sum(1 for x in ctx.obs if x.key.startswith(key))
+            key += "#%d" % k if k else ""
+            loc = "%s:%s" % (f.file, st.get("ln"))
+            if side == "negative":
+                later = body.every_path_passes(b, exits, negate_blocks) if negate_blocks else False
+                ctx.decide(negated or later, rule, key, loc, "negated on the negative side",
+                           "val() builds a %s on the side of the sign test where the text started with `-` "
+                           "but the payload is not negated: VAL of that text returns the positive magnitude "
+                           "(VAL(STR$(k)) <> k for those k)" % r["variant"])
+            elif side == "positive":
+                ctx.decide(not negated, rule, key, loc, "not negated on the positive side",
+                           "val() negates the payload of a %s although the text had no `-` sign" % r["variant"])
+            else:
+                sws = set(sign_sw) & body.reachable(b)
+                ok = bool(sws) and body.every_path_passes(b, exits, sws)
+                for sb in sws:
+                    neg, pos = sign_sw[sb]
+                    first = not any(x != sb and x in body.reachable(b) and sb in body.reachable(x) and
+                                    body.dominates(x, sb) for x in sws)
+                    if not first:
+                        continue
+                    negates_on_positive_side = {x for x in body.reachable(pos)
+                                                if x in negate_blocks and not body.dominates(neg, x)}
+                    ok = ok and body.every_path_passes(neg, exits, negate_blocks) and not negates_on_positive_side
+                ctx.decide(ok and not negated, rule, key, loc,
+                           "built from the magnitude, then negated on the negative side of the sign test only",
+                           "a %s built by val() before the sign is tested does not reach `negate()` exactly on the "
+                           "negative side of the test" % r["variant"])
+    ctx.analysed_units(rule, numeric_results=n, sign_tests=len(sign_sw))
+    ctx.require(rule, 5)
+
+
 def run(ctx):
     common.install(ctx)
     r1_accessors(ctx)
     r2_accessor_ranges(ctx)
     r3_substring_ranges(ctx)
+    r4_val_sign(ctx)
